@@ -192,6 +192,28 @@ def main(run):
     # ---- exact one-step transition law under the implementation's own draws (no sampling error): from a full reservoir the
     #      next observation must enter with probability exactly p and replace each slot with probability exactly p/k
     pass  # (copy is imported at module level)
+    # ---- exact law of the overwritten slot with the acceptance draw pinned (0.0: always accepted): 1/k each, compared with ==
+    from fractions import Fraction as _Fr
+    from ..exactlaw import replaced_slot_law, Budget as _Budget
+    for k in [k_ for k_ in (list(range(1, 13)) + ([100, 127] if thorough else [33])) if k_ % nsh == sh % nsh]:
+        for p_ in (None, 1.0, 0.5):
+            try:
+                slaw, runs_x = replaced_slot_law(lambda: GeometricReservoirStorage(size=k, constant_probability=p_, store_targets=False), k, 0.0, max_updates=k + 3)
+            except (_Budget, NotImplementedError):
+                run.count("exact-law-budget-exceeded")
+                continue
+            from ..exactlaw import UNRESOLVED as _UNR
+            un_ = slaw.pop(_UNR, 0)
+            if float(un_) > 1e-10:
+                run.count("exact-law-budget-exceeded")
+                continue
+            run.ok(kind="exact-slot-law")
+            run.count("exact-law-executions", runs_x)
+            if set(slaw) != set(range(k)) or any(abs(q_ - _Fr(1, k)) > un_ for q_ in slaw.values()):
+                run.violation("slot-uniformity", f"k={k} p={p_} (acceptance draw pinned to 0.0): the overwritten slot has the exact law "
+                                                 f"{ {str(o): str(q) for o, q in sorted(slaw.items(), key=lambda kv: str(kv[0]))[:8]} }, expected 1/{k} for each slot",
+                              {"k": k, "p": p_, "exact_slot_law": True})
+            run.nontriv(("slot-law", k, str(p_)))
     from ..exactlaw import exact_law, Budget
     xrnd = random.Random(run.seed + 555)
     import fractions
@@ -219,6 +241,12 @@ def main(run):
             except (Budget, NotImplementedError):      # (a draw form the scripted generators do not model: this sub-monitor cannot judge)
                 run.count("exact-law-budget-exceeded")
                 continue
+            from ..exactlaw import UNRESOLVED
+            if float(lawd.pop(UNRESOLVED, 0)) > 1e-10:       # (a retry loop whose tail could not be enumerated to sufficient depth)
+                run.count("exact-law-budget-exceeded")
+                continue
+            tot_ = sum(lawd.values())
+            lawd = {o_: q_ / tot_ for o_, q_ in lawd.items()}
             run.ok(kind="exact-transition-law")
             run.count("exact-law-executions", runs_x)
             stay = float(lawd.get(tuple(before), 0))
@@ -250,7 +278,10 @@ def main(run):
                     if i not in [d["t"] for d in st.get_data()[0]]:
                         return i
                 return None
-            for script, res, rng in dfs(scen, PALETTE_SMALL + [0.5, 1e-12]):
+            for script, res, rng in dfs(scen, PALETTE_SMALL + [0.5, 1e-12], max_paths=300000):
+                if script is None:
+                    run.count("scripted-enumeration-truncated")
+                    break
                 run.ok(kind="p1-scripted-path")
                 if res is not None:
                     run.violation("p1-newest-not-stored", f"k={k} p=1 scripted draws {script}: observation #{res + 1} not stored",
